@@ -445,6 +445,20 @@ def full_text(cx, expr):
     return ast.unparse(inline_ast(cx, expr))
 
 
+def spliced_args(cx, call):
+    """positional arguments of a call with `*t` spelled out where t is a single-definition local bound to a tuple display
+    (`args = (a, b); f(*args)` reads as `f(a, b)`); an unresolvable `*x` is kept as the Starred node"""
+    out = []
+    for a in call.args:
+        if isinstance(a, ast.Starred):
+            v = inline_ast(cx, a.value)
+            if isinstance(v, ast.Tuple) and not any(isinstance(e, ast.Starred) for e in v.elts):
+                out.extend(v.elts)
+                continue
+        out.append(a)
+    return out
+
+
 def bound_args(P, cx, call):
     """{parameter name: argument expression} of a call to a repository function / dataclass, however the arguments are
     spelled (positionally or by keyword). Unresolvable callees yield only the keywords."""
@@ -462,8 +476,10 @@ def bound_args(P, cx, call):
         if sg:
             names = sg[0]
     if names:
-        for i, a in enumerate(call.args):
-            if i < len(names) and not isinstance(a, ast.Starred):
+        for i, a in enumerate(spliced_args(cx, call)):
+            if isinstance(a, ast.Starred):
+                break
+            if i < len(names):
                 out.setdefault(names[i], a)
     return out
 
@@ -584,6 +600,8 @@ def explore(cx, atom_eval, start=None, stop=()):
         if isinstance(e, ast.UnaryOp) and isinstance(e.op, ast.Not):
             v = ev(e.operand, env)
             return None if v is None else (not v)
+        if isinstance(e, ast.Call) and isinstance(e.func, ast.Name) and e.func.id == 'bool' and len(e.args) == 1 and not e.keywords:
+            return ev(e.args[0], env)
         if isinstance(e, ast.BoolOp):
             vs = [ev(x, env) for x in e.values]
             if isinstance(e.op, ast.And):
@@ -641,4 +659,88 @@ def explore(cx, atom_eval, start=None, stop=()):
             for (m, l) in n.succ:
                 if l != 'exc':
                     todo.append((m, nenv))
+    return out
+
+
+def explore_sym(cx, atom_eval, transfer, state0=(), on_edge=None, start=None, on_undecided=None):
+    """explore() with a rule-defined symbolic state carried along each path.
+    state: a hashable value (e.g. a sorted tuple of (local, symbolic value));
+    atom_eval(expr, state) -> True / False / None   decides atomic conditions in that state;
+    transfer(node, state) -> state                  effect of a statement / loop head on the state;
+    on_edge(test node, label, state) -> state       what taking that edge of a test teaches (optional);
+    on_undecided(test node, state)                  called when a test forks (a rule may refuse conditions it does not model).
+    Boolean locals are tracked as in explore(). -> set of (node id, state) reached; the walk is exhaustive over the finite
+    state space the rule defines (the rule is responsible for keeping it finite)."""
+    cfg = cx.cfg
+
+    def ev(e, env, st):
+        v = atom_eval(e, st)
+        if v is not None:
+            return v
+        if isinstance(e, ast.Constant) and isinstance(e.value, (bool, type(None))):
+            return bool(e.value)
+        if isinstance(e, ast.Name) and e.id in env:
+            return False if env[e.id] == 'NONE' else env[e.id]
+        if isinstance(e, ast.UnaryOp) and isinstance(e.op, ast.Not):
+            v = ev(e.operand, env, st)
+            return None if v is None else (not v)
+        if isinstance(e, ast.Call) and isinstance(e.func, ast.Name) and e.func.id == 'bool' and len(e.args) == 1 and not e.keywords:
+            return ev(e.args[0], env, st)
+        if isinstance(e, ast.BoolOp):
+            vs = [ev(x, env, st) for x in e.values]
+            if isinstance(e.op, ast.And):
+                if any(v is False for v in vs):
+                    return False
+                return True if all(v is True for v in vs) else None
+            if any(v is True for v in vs):
+                return True
+            return False if all(v is False for v in vs) else None
+        if isinstance(e, ast.IfExp):
+            t = ev(e.test, env, st)
+            if t is None:
+                a, b = ev(e.body, env, st), ev(e.orelse, env, st)
+                return a if a == b else None
+            return ev(e.body if t else e.orelse, env, st)
+        return None
+    seen = set()
+    todo = [(start or cfg.entry, (), state0)]
+    out = set()
+    while todo:
+        n, envt, st = todo.pop()
+        key = (n.id, envt, st)
+        if key in seen:
+            continue
+        seen.add(key)
+        out.add((n.id, st))
+        env = dict(envt)
+        st2 = st
+        if n.kind == 'stmt' and isinstance(n.ast, (ast.Assign, ast.AnnAssign, ast.AugAssign)):
+            tg = n.ast.targets if isinstance(n.ast, ast.Assign) else [n.ast.target]
+            for t in tg:
+                for x in ast.walk(t):
+                    if isinstance(x, ast.Name):
+                        env.pop(x.id, None)
+            if isinstance(n.ast, ast.Assign) and len(tg) == 1 and isinstance(tg[0], ast.Name):
+                v = ev(n.ast.value, dict(envt), st)
+                if v is not None and isinstance(v, bool):
+                    env[tg[0].id] = v
+        elif n.kind in ('for', 'with', 'handler'):
+            for (nm, _) in cfg.defs_of(n):
+                env.pop(nm, None)
+        if n.kind != 'test':
+            st2 = transfer(n, st)
+        nenv = tuple(sorted(env.items()))
+        if n.kind == 'test':
+            v = ev(n.ast, env, st)
+            if v is None and on_undecided:
+                on_undecided(n, st)
+            for (m, l) in n.succ:
+                if l == 'exc':
+                    continue
+                if v is None or l == v:
+                    todo.append((m, nenv, on_edge(n, l, st) if on_edge else st))
+        else:
+            for (m, l) in n.succ:
+                if l != 'exc':
+                    todo.append((m, nenv, st2))
     return out
